@@ -368,9 +368,9 @@ def run(ctx):
                  "point pending; integrator: the returned abscissa had no value; AverageLearner1D: told => not pending per operation only, "
                  "ask itself re-issues evaluated seeds - recorded finding)",
                  "Learner2D (AdaptiveModel/L2D.lean, bookkeeping only - the candidate list of _fill_stack is an oracle): proved for every "
-                 "oracle and history; 'asked => pending until told' and 'no stack key is pending' need CandsFresh (the geometry never "
-                 "proposes a pending or evaluated point), which the real geometry violates rarely (recorded finding; kernel-checked "
-                 "counterexamples Ex.nocommit_ask_can_unpend, Ex.inv1_needs_fresh)"],
+                 "oracle and history, since the repairs e806eb2 / 844d031 also 'asked => pending until told or discarded' without any hypothesis "
+                 "on the geometry; only the invariant 'no stack key is pending or evaluated' needs CandsFresh (kernel-checked "
+                 "counterexamples Ex.inv1_needs_fresh, Ex.inv1_needs_fresh_evaluated)"],
     )
 
 
